@@ -58,13 +58,17 @@ func genCase(rng *rand.Rand) *caseDesc {
 	for i := 0; i < nb; i++ {
 		r := ref.CBRule{Strategy: rng.Intn(3)}
 		r.RetryMs = uint64(vk.PickI(rng, 1, 10, 100, 100, 1000, 5000))
+		if rng.Intn(12) == 0 {
+			// retry timeouts near the top of the uint32 range (49.7 days): the deadline arithmetic is 64-bit
+			r.RetryMs = uint64(vk.PickI64(rng, 1<<31, 1<<32-1, 1<<32-2, 3000000000))
+		}
 		r.MinReq = uint64(vk.PickI(rng, 0, 1, 1, 2, 3, 5, 8))
 		r.StatMs = uint64(vk.PickI(rng, 100, 1000, 1000, 2000, 10000))
 		r.Buckets = uint64(vk.PickI(rng, 0, 1, 1, 2, 3, 4, 5, 10))
 		r.ProbeNum = uint64(vk.PickI(rng, 0, 0, 0, 1, 2, 3))
 		switch r.Strategy {
 		case ref.SlowRatio:
-			r.MaxRt = uint64(vk.PickI(rng, 0, 5, 50))
+			r.MaxRt = uint64(vk.PickI64(rng, 0, 5, 50, 50, 1<<32, 1<<62))
 			r.Threshold = vk.PickF(rng, 0, 0.1, 0.25, 1.0/3, 0.5, 0.75, 1)
 		case ref.ErrRatio:
 			r.Threshold = vk.PickF(rng, 0, 0.1, 0.25, 1.0/3, 0.5, 0.75, 1)
